@@ -4,14 +4,19 @@ import (
 	"verif/gosym/smt"
 )
 
-// Symbolic clock: time.Now returns a Time whose wall field is 0 and whose ext
-// field (seconds since year 1) is a fresh symbolic integer that never
-// decreases. Resolution is therefore one second; durations are multiples of
-// time.Second.
+// Symbolic clock. A time.Time is modelled as {wall: 0, ext: nanoseconds, loc}
+// where ext is a symbolic integer (the real representation keeps seconds in
+// ext; every method that looks inside a Time is intercepted here, so the two
+// never meet). time.Now returns a fresh instant that is not earlier than the
+// previous one; time.Sleep and timers advance the clock by at least the
+// duration. The zero Time has ext == 0; real instants are > 0.
+
+const clockLo, clockHi = int64(1) << 60, int64(1) << 61
+
 func (p *Path) now() *smt.T {
 	n, _ := p.freshName("clock")
-	t := p.regVar(smt.VarRange(n, 1<<33, 1<<34))
-	p.addPC(smt.InRange(t, 1<<33, 1<<34))
+	t := p.regVar(smt.VarRange(n, clockLo, clockHi))
+	p.addPC(smt.InRange(t, clockLo, clockHi))
 	if p.clock != nil {
 		p.addPC(smt.Le(p.clock, t))
 	}
@@ -19,26 +24,112 @@ func (p *Path) now() *smt.T {
 	return t
 }
 
+func timeExt(v Value) *smt.T { return v.(Struct)[1].(*smt.T) }
+
 func registerTime(e *Engine) {
-	e.on("time.Now", func(fr *Frame, a []Value) Value {
-		fr.p.eng.noteUse("model: symbolic non-decreasing clock with one-second resolution")
+	mk := func(ext *smt.T) Value {
 		z := zero(e.namedType("time", "Time")).(Struct)
-		z[1] = fr.p.now()
+		z[1] = ext
 		return z
+	}
+	e.on("time.Now", func(fr *Frame, a []Value) Value {
+		fr.p.eng.noteUse("model: symbolic non-decreasing clock (nanoseconds); time.Time methods are evaluated on it")
+		return mk(fr.p.now())
 	})
-	e.on("time.Sleep", func(fr *Frame, a []Value) Value {
-		// advance the clock by at least the duration (rounded up to seconds)
-		p := fr.p
-		d := a[0].(*smt.T)
+	advance := func(p *Path, d *smt.T) {
 		if p.clock == nil {
 			p.now()
 		}
 		prev := p.clock
 		t := p.now()
-		p.addPC(smt.Le(smt.Add(smt.Mul(prev, smt.I(1000000000)), d), smt.Mul(t, smt.I(1000000000))))
+		p.addPC(smt.Le(smt.Add(prev, d), t))
 		if rec, ok := p.ghost["sleeps"]; ok {
 			*(rec.(*[]Value)) = append(*(rec.(*[]Value)), d)
 		}
+	}
+	e.on("time.Sleep", func(fr *Frame, a []Value) Value {
+		advance(fr.p, a[0].(*smt.T))
 		return nil
 	})
+	e.on("(time.Time).Add", func(fr *Frame, a []Value) Value {
+		return mk(smt.Add(timeExt(a[0]), a[1].(*smt.T)))
+	})
+	e.on("(time.Time).Sub", func(fr *Frame, a []Value) Value {
+		return smt.Sub(timeExt(a[0]), timeExt(a[1]))
+	})
+	e.on("(time.Time).Before", func(fr *Frame, a []Value) Value { return smt.Lt(timeExt(a[0]), timeExt(a[1])) })
+	e.on("(time.Time).After", func(fr *Frame, a []Value) Value { return smt.Lt(timeExt(a[1]), timeExt(a[0])) })
+	e.on("(time.Time).Equal", func(fr *Frame, a []Value) Value { return smt.Eq(timeExt(a[0]), timeExt(a[1])) })
+	e.on("(time.Time).Compare", func(fr *Frame, a []Value) Value {
+		x, y := timeExt(a[0]), timeExt(a[1])
+		return smt.Ite(smt.Lt(x, y), smt.I(-1), smt.Ite(smt.Lt(y, x), smt.I(1), smt.I(0)))
+	})
+	e.on("(time.Time).IsZero", func(fr *Frame, a []Value) Value { return smt.Eq(timeExt(a[0]), smt.I(0)) })
+	e.on("(time.Time).Unix", func(fr *Frame, a []Value) Value { return smt.Div(timeExt(a[0]), smt.I(1000000000)) })
+	e.on("(time.Time).UnixNano", func(fr *Frame, a []Value) Value { return timeExt(a[0]) })
+	e.on("(time.Time).UTC", func(fr *Frame, a []Value) Value { return a[0] })
+	e.on("(time.Time).Local", func(fr *Frame, a []Value) Value { return a[0] })
+	e.on("(time.Time).Round", func(fr *Frame, a []Value) Value { return a[0] })
+	e.on("(time.Time).Truncate", func(fr *Frame, a []Value) Value { return a[0] })
+	// textual forms of a symbolic instant are opaque tokens carrying the instant
+	stamp := func(fr *Frame, v Value) Str {
+		ext := timeExt(v)
+		if c, ok := ext.Int64(); ok && c == 0 {
+			return CStr("0001-01-01T00:00:00Z")
+		}
+		fr.p.eng.noteUse("model: the textual form of a symbolic time is an opaque token")
+		return AtomStr(&Atom{ID: ext, Len: 20, Kind: "tok", Info: "time"})
+	}
+	e.on("(time.Time).String", func(fr *Frame, a []Value) Value { return stamp(fr, a[0]) })
+	e.on("(time.Time).Format", func(fr *Frame, a []Value) Value { return stamp(fr, a[0]) })
+	e.on("(time.Time).MarshalText", func(fr *Frame, a []Value) Value {
+		return Tuple{stamp(fr, a[0]).toBytes(), Iface{}}
+	})
+	e.on("(time.Time).MarshalJSON", func(fr *Frame, a []Value) Value {
+		return Tuple{strConcat(strConcat(CStr("\""), stamp(fr, a[0])), CStr("\"")).toBytes(), Iface{}}
+	})
+	e.on("(*time.Time).UnmarshalJSON", func(fr *Frame, a []Value) Value {
+		s := bytesToStr(a[1].([]Value))
+		cell := a[0].(*Value)
+		if s.N >= 2 {
+			inner := s.Slice(1, s.N-1)
+			if len(inner.Segs) == 1 && inner.Segs[0].A != nil && inner.Segs[0].A.Info == "time" {
+				store(cell, mk(inner.Segs[0].A.ID))
+				return Iface{}
+			}
+			if c, ok := inner.Concrete(); ok && c == "0001-01-01T00:00:00Z" {
+				store(cell, mk(smt.I(0)))
+				return Iface{}
+			}
+			if _, ok := inner.Concrete(); ok {
+				// a concrete timestamp: some instant in the past
+				store(cell, mk(smt.I(clockLo)))
+				return Iface{}
+			}
+		}
+		return fr.p.mkError(CStr("parsing time: unsupported symbolic text"))
+	})
+	e.on("time.Since", func(fr *Frame, a []Value) Value { return smt.Sub(fr.p.now(), timeExt(a[0])) })
+	e.on("time.Until", func(fr *Frame, a []Value) Value { return smt.Sub(timeExt(a[0]), fr.p.now()) })
+	e.on("time.Unix", func(fr *Frame, a []Value) Value {
+		return mk(smt.Add(smt.Mul(a[0].(*smt.T), smt.I(1000000000)), a[1].(*smt.T)))
+	})
+	// timers: After/NewTimer hand back a channel that is already ready; the
+	// wait is accounted for by advancing the clock at creation
+	after := func(fr *Frame, d *smt.T) *Chan {
+		advance(fr.p, d)
+		fr.p.chanSeq++
+		c := &Chan{Cap: 1, ID: fr.p.chanSeq}
+		c.Buf = append(c.Buf, mk(fr.p.clock))
+		fr.p.markReady(c, false)
+		return c
+	}
+	e.on("time.After", func(fr *Frame, a []Value) Value { return after(fr, a[0].(*smt.T)) })
+	e.on("time.NewTimer", func(fr *Frame, a []Value) Value {
+		z := zero(e.namedType("time", "Timer")).(Struct)
+		z[0] = after(fr, a[0].(*smt.T))
+		return newCell(z)
+	})
+	e.on("(*time.Timer).Stop", func(fr *Frame, a []Value) Value { return smt.False })
+	e.on("(*time.Timer).Reset", func(fr *Frame, a []Value) Value { return smt.False })
 }
